@@ -110,7 +110,11 @@ def info_from_axes(axes):
     return [s0, s1]
 
 
-def pick_variant(ctx, voxels, cseg_ok=True):
+def cubic(scales):
+    return all(len(set(s["chunk"])) == 1 for s in scales)
+
+
+def pick_variant(ctx, voxels, cseg_ok=True, scales=None):
     rng = ctx.rng
     method = rng.choice(METHODS if voxels <= 1500 else ["stride", "average"])
     if method == "average":
@@ -121,7 +125,11 @@ def pick_variant(ctx, voxels, cseg_ok=True):
     enc = "raw"
     if cseg_ok and dtype in ("uint32", "uint64") and rng.random() < 0.35:
         enc = "compressed_segmentation"
-    storage = rng.choice(STORAGES)
+    # the sharded accessor refuses non-cubic chunks by design (explicit error)
+    if scales is not None and cubic(scales):
+        storage = rng.choice(STORAGES + ["sharded", "sharded"])
+    else:
+        storage = rng.choice(STORAGES[:3])
     kind = "random" if (method == "average" and rng.random() < 0.6) else "unique"
     outside = None
     return {"method": method, "dtype": dtype, "channels": channels, "encoding": enc,
@@ -157,6 +165,21 @@ def handmade_jobs(ctx, table):
             axes.insert(pos, main)
             jobs.append({"origin": "class", "axes3": [axes], "scales": info_from_axes(axes),
                          "class": c, "gen": False})
+    # cubic chunk pairs (the only ones the sharded accessor stores): the same
+    # (o, n) on the three axes, factors and sizes vary per axis
+    by_on = {}
+    for c in classes:
+        by_on.setdefault((c["o"], c["n"]), []).append(c)
+    for (o, n), cs in sorted(by_on.items()):
+        for _ in range(ctx.pick(1, 6)):
+            axes = []
+            for _a in range(3):
+                c = rng.choice([x for x in cs if x["size"] <= 9] or cs)
+                axes.append({k: c[k] for k in ("o", "n", "f", "size")})
+            if axes[0]["size"] * axes[1]["size"] * axes[2]["size"] > 800:
+                axes[2] = dict(axes[2], size=1, f=1)
+            jobs.append({"origin": "cubic", "axes3": [axes], "scales": info_from_axes(axes),
+                         "class": None, "gen": False})
     # combinations of two non-Correct classes (Error dominates SilentWrong)
     bad = [c for c in classes if c["outcome"] != "Correct" and c["size"] <= 12]
     for _ in range(ctx.pick(12, 150)):
@@ -174,45 +197,34 @@ GEN_RES = [[1, 1], [2, 1], [3, 1], [4, 1], [5, 1], [7, 1], [8, 1], [12, 1], [16,
 
 
 def generator_jobs(ctx):
-    """infos produced by the REAL scale generator on small volumes"""
+    """infos produced by the REAL scale generator on small volumes.  A pool of
+    candidates is generated; the selection (ORDER / SELECT only) keeps the
+    fixed seeds, the candidates whose first non-intended chunk pair has half
+    chunk 1 (the class the model predicts to be silently wrong) and a random
+    rest."""
     from neuroglancer_scripts import dyadic_pyramid
     rng = ctx.rng
-    jobs = []
     want = ctx.pick(45, 700)
-    tries = 0
     fixed = [([[1, 1]] * 3, 2, [21, 13, 9]), ([[1, 1], [2, 1], [2, 1]], 2, [40, 9, 5]),
              ([[8, 10], [8, 10], [12, 10]], 2, [33, 20, 6]), ([[1, 1], [3, 1], [12, 1]], 2, [250, 9, 2]),
              ([[1, 1], [3, 1], [12, 1]], 1, [130, 5, 2]), ([[1, 1], [5, 1], [35, 4]], 2, [70, 8, 3]),
-             ([[1, 1], [1, 1], [40, 1]], 1, [64, 50, 1]), ([[1, 1], [8, 1], [64, 1]], 2, [300, 8, 1])]
-    while len(jobs) < want and tries < want * 30:
-        tries += 1
-        if tries <= len(fixed):
-            res, T, size = fixed[tries - 1]
-        else:
-            kind = rng.random()
-            if kind < 0.15:
-                r = rng.choice(GEN_RES)
-                res = [r, r, r]
-            else:
-                res = [rng.choice(GEN_RES) for _ in range(3)]
-            T = rng.choice([1, 1, 2, 2, 3])
-            order = sorted(range(3), key=lambda a: res[a][0] / res[a][1])
-            size = [0, 0, 0]
-            size[order[0]] = rng.choice([9, 20, 33, 64, 100, 130, 250])
-            size[order[1]] = rng.choice([1, 2, 3, 5, 8, 9, 20])
-            size[order[2]] = rng.choice([1, 1, 2, 3, 4, 6])
-        if size[0] * size[1] * size[2] > 4200:
-            continue
+             ([[1, 1], [1, 1], [40, 1]], 1, [64, 50, 1]), ([[1, 1], [8, 1], [64, 1]], 2, [300, 8, 1]),
+             ([[1, 1], [3, 1], [40, 1]], 2, [250, 9, 2]), ([[1, 1], [3, 1], [40, 1]], 2, [130, 9, 1]),
+             ([[1, 1]] * 3, 3, [40, 40, 20]), ([[1, 1]] * 3, 2, [33, 1, 1])]
+
+    def build(res, T, size, maxs):
+        if size[0] * size[1] * size[2] > 4600:
+            return None
         info = {"type": "image", "data_type": "uint8", "num_channels": 1,
                 "scales": [{"size": list(size), "voxel_offset": [0, 0, 0], "encoding": "raw",
                             "resolution": [float(p) / q for p, q in res]}]}
         try:
-            dyadic_pyramid.fill_scales_for_dyadic_pyramid(info, 2 ** T, rng.choice([None, None, 4]))
+            dyadic_pyramid.fill_scales_for_dyadic_pyramid(info, 2 ** T, maxs)
         except Exception:
-            continue
+            return None
         sc = info["scales"]
         if len(sc) < 2:
-            continue
+            return None
         scales = [{"key": s["key"], "size": s["size"], "chunk": s["chunk_sizes"][0],
                    "resolution": s["resolution"]} for s in sc]
         axes3 = []
@@ -221,8 +233,39 @@ def generator_jobs(ctx):
                            "n": sc[k + 1]["chunk_sizes"][0][a],
                            "f": 1 if sc[k]["size"][a] == sc[k + 1]["size"][a] else 2}
                           for a in range(3)])
-        jobs.append({"origin": "generator", "axes3": axes3, "scales": scales, "class": None,
-                     "gen": True, "input": {"res": res, "T": T, "size": size}})
+        return {"origin": "generator", "axes3": axes3, "scales": scales, "class": None,
+                "gen": True, "input": {"res": res, "T": T, "size": size, "maxs": maxs}}
+
+    def first_odd_is_half1(job):
+        for axes in job["axes3"]:
+            odd = [a for a in axes if a["o"] // a["f"] == 0
+                   or a["n"] not in (a["o"] // a["f"], 2 * (a["o"] // a["f"]))]
+            if odd:
+                return all(a["o"] // a["f"] == 1 and a["n"] >= 4 for a in odd)
+        return False
+
+    jobs = [j for j in (build(r, t, s, None) for r, t, s in fixed) if j]
+    pool = []
+    for _ in range(want * 8):
+        kind = rng.random()
+        if kind < 0.15:
+            r = rng.choice(GEN_RES)
+            res = [r, r, r]
+        else:
+            res = [rng.choice(GEN_RES) for _ in range(3)]
+        T = rng.choice([1, 1, 2, 2, 3])
+        order = sorted(range(3), key=lambda a: res[a][0] / res[a][1])
+        size = [0, 0, 0]
+        size[order[0]] = rng.choice([9, 20, 33, 64, 100, 130, 250])
+        size[order[1]] = rng.choice([1, 2, 3, 5, 8, 9, 20])
+        size[order[2]] = rng.choice([1, 1, 2, 3, 4, 6])
+        j = build(res, T, size, rng.choice([None, None, None, 4]))
+        if j:
+            pool.append(j)
+    silent = [j for j in pool if first_odd_is_half1(j)]
+    rest = [j for j in pool if not first_odd_is_half1(j)]
+    jobs += silent[:max(3, want // 6)]
+    jobs += rest[:max(0, want - len(jobs))]
     return jobs
 
 
@@ -230,7 +273,7 @@ def generator_jobs(ctx):
 def run_job(ctx, work, job, salt):
     sc = job["scales"]
     voxels = int(np.prod(sc[0]["size"]))
-    var = job.get("variant") or pick_variant(ctx, voxels)
+    var = job.get("variant") or pick_variant(ctx, voxels, scales=sc)
     job["variant"] = var
     info = pd.make_info(sc, var["dtype"], var["channels"], var["encoding"],
                         sharded=(var["storage"] == "sharded"))
@@ -296,6 +339,7 @@ def run(ctx):
     jobs = handmade_jobs(ctx, table) + generator_jobs(ctx)
     ctx.notes["jobs"] = {"class": sum(1 for j in jobs if j["origin"] == "class"),
                          "class2": sum(1 for j in jobs if j["origin"] == "class2"),
+                         "cubic": sum(1 for j in jobs if j["origin"] == "cubic"),
                          "generator": sum(1 for j in jobs if j["origin"] == "generator")}
     level_cases = []
     for n, job in enumerate(jobs):
